@@ -133,7 +133,7 @@ def main():
     harness_results = {}
     exit_code = 0
     messages = []
-    stage_name = "%s-%s" % (prop, tier)
+    stage_name = "%s-%s%s" % (prop, tier, os.environ.get("VERIF_STAGE_SUFFIX", ""))
     try:
         stage_dir = vlib.stage(stage_name, "kani", wide=(tier == "thorough"))
     except vlib.CannotEncode as e:
@@ -149,10 +149,14 @@ def main():
                 if not hs:
                     continue
             log = os.path.join(vlib.SCRATCH_ROOT, "%s.%s.log" % (stage_name, g.get("name", "g")))
+            # with a single job, concrete playback is requested up front: a failing
+            # harness then prints its counterexample in the same run (Kani refuses
+            # --concrete-playback together with --jobs)
             res = vlib.run_kani(stage_dir, hs, features=g.get("features"), jobs=g.get("jobs", 8),
                                 timeout_s=g.get("timeout_s", 3000), mem_gb=g.get("mem_gb", 20),
                                 cbmc_args=g.get("cbmc_args", vlib.DEFAULT_CBMC_ARGS), log_path=log,
-                                harness_timeout=g.get("harness_timeout_s", 1200), exact=True)
+                                harness_timeout=g.get("harness_timeout_s", 1200), exact=True,
+                                playback=(len(hs) == 1 or g.get("jobs", 8) == 1))
             if not res["harnesses"] and res["rc"] != 0:
                 tail = "\n".join(l for l in res["out"].splitlines() if l.startswith("error"))[:1500]
                 messages.append("build or tool failure in group %s: %s" % (g.get("name"), tail))
@@ -165,13 +169,15 @@ def main():
                                       "failed_checks": r and r["failed_checks"][:6]}
             failing = [h for h in hs if harness_results[h]["class"] == "fail"]
             if failing:
-                # get concrete values, replay natively
-                pres = vlib.run_kani(stage_dir, failing, features=g.get("features"), jobs=1,
-                                     timeout_s=g.get("timeout_s", 3000), mem_gb=g.get("mem_gb", 20),
-                                     cbmc_args=g.get("cbmc_args", vlib.DEFAULT_CBMC_ARGS),
-                                     log_path=log + ".playback", playback=True,
-                                     harness_timeout=g.get("harness_timeout_s", 1200), exact=True)
-                pb = parse_playback(pres["out"])
+                pb = parse_playback(res["out"])
+                missing = [h for h in failing if not pick_counterexample(pb.get(h, []))]
+                if missing:
+                    pres = vlib.run_kani(stage_dir, missing, features=g.get("features"), jobs=1,
+                                         timeout_s=g.get("timeout_s", 3000), mem_gb=g.get("mem_gb", 20),
+                                         cbmc_args=g.get("cbmc_args", vlib.DEFAULT_CBMC_ARGS),
+                                         log_path=log + ".playback", playback=True,
+                                         harness_timeout=g.get("harness_timeout_s", 1200), exact=True)
+                    pb.update(parse_playback(pres["out"]))
                 if replay_dir is None:
                     replay_dir = vlib.stage(stage_name + "-replay", "replay", wide=(tier == "thorough"))
                 for h in failing:
@@ -193,7 +199,8 @@ def main():
                         panic = next((v["panic"] for v in rr.values() if v.get("panic")), "")
                         kf = next((k for k in known if k["harness"] == h and
                                    (k["site"] in site or k["site"] in (panic or ""))), None)
-                        rp = os.path.join(VERIF, "evidence", "replay", "%s.%s.json" % (prop, h))
+                        rp = os.path.join(os.environ.get("VERIF_EVIDENCE_DIR") or os.path.join(VERIF, "evidence"),
+                                          "replay", "%s.%s.json" % (prop, h))
                         os.makedirs(os.path.dirname(rp), exist_ok=True)
                         json.dump({"property": prop, "harness": h, "values": vals, "failed_checks": hr["failed_checks"],
                                    "native": rr,
